@@ -2,6 +2,8 @@ package main
 
 import (
 	"fmt"
+	"go/token"
+	"go/types"
 	"sort"
 	"strings"
 
@@ -130,4 +132,189 @@ func malformedNumberOnly(b *ssa.BasicBlock) bool {
 		}
 	}
 	return false
+}
+
+// R-SILENTDEFAULT: a dispatching switch over an ast enum must not fall through
+// to a silent "not found".
+var ruleSilentDefault = &Rule{
+	Name: "R-SILENTDEFAULT", NeedSSA: true,
+	Doc: "no executor answers a node silently with a non-failed status because its dispatching switch has no arm for it: a return of a constant non-failed status with a nil error that is reached only by excluding constants of an ast enum must be infeasible for every node shape the grammar can build",
+	Run: func(p *Prog) *RuleOut {
+		out := newOut("R-SILENTDEFAULT")
+		e, err := p.exhEngine()
+		if err != nil {
+			out.undecided("engine", "-", "", err.Error())
+			return out
+		}
+		failed := constOf(p.A.StatusFailed)
+		n := 0
+		for _, fn := range p.execFuncs() {
+			if p.pairKind(fn.Signature) != "status" {
+				continue
+			}
+			for _, r := range returnsOf(fn) {
+				k, isC := constInt(r.Results[0])
+				if !isC || k == failed || !isNilConst(stripConv(r.Results[1])) {
+					continue
+				}
+				// reached by exclusion only?
+				excl, pos := 0, 0
+				for _, f := range factsAt(r.Instr.Block()) {
+					bo, ok := f.Cond.(*ssa.BinOp)
+					if !ok || p.enumOf(bo.X.Type()) == nil {
+						continue
+					}
+					if _, ok := constInt(bo.Y); !ok {
+						continue
+					}
+					if (bo.Op == token.EQL) == f.Truth {
+						pos++
+					} else {
+						excl++
+					}
+				}
+				if excl < 2 || pos > 0 {
+					continue
+				}
+				n++
+				key := fnName(fn) + ": silent default of the operator switch"
+				if ctxs := e.feasibleContexts(r.Instr.Block()); len(ctxs) == 0 {
+					out.ok(key, p.pos(r.Instr.Pos()), fnName(fn), "every constant the grammar can put there has an arm")
+				} else {
+					out.viol(key, p.pos(r.Instr.Pos()), fnName(fn), "a node the parser can build is answered with a silent 'not found' because the switch has no arm for its operator: "+e.describeCtx(ctxs[0], r.Instr.Block()))
+				}
+			}
+		}
+		out.Counts["silent_defaults"] = n
+		out.Floors["silent_defaults"] = 2
+		return out
+	},
+}
+
+// R-ITEMTYPES: values handed on as items have documented dynamic types.
+var ruleItemTypes = &Rule{
+	Name: "R-ITEMTYPES", NeedSSA: true,
+	Doc: "every value the executor hands to the continuation or appends to a result list has a dynamic type inside the 13-type item universe (nil, bool, int64, float64, json.Number, string, []any, map[string]any and the five datetime types), so that every downstream type switch stays exhaustive",
+	Run: func(p *Prog) *RuleOut {
+		out := newOut("R-ITEMTYPES")
+		e, err := p.exhEngine()
+		if err != nil {
+			out.undecided("engine", "-", "", err.Error())
+			return out
+		}
+		inUniverse := func(t types.Type) bool {
+			for _, u := range p.A.ItemTypes {
+				if types.Identical(u, t) {
+					return true
+				}
+			}
+			return false
+		}
+		n := 0
+		ord := ordinals{}
+		for _, fn := range p.execFuncs() {
+			ctx := &Ctx{fn: fn}
+			for _, b := range fn.Blocks {
+				for _, ins := range b.Instrs {
+					c, ok := ins.(*ssa.Call)
+					if !ok {
+						continue
+					}
+					sig := calleeSig(c)
+					isCont := sig != nil && p.pairKind(sig) == "status" && isMethodOfExecutor(p, c.Call.StaticCallee())
+					isAppend := c.Call.StaticCallee() != nil && c.Call.StaticCallee().Signature.Recv() != nil && namedOf(c.Call.StaticCallee().Signature.Recv().Type()) == p.A.ValueList
+					if !isCont && !isAppend {
+						continue
+					}
+					for ai, a := range c.Call.Args {
+						it, ok := a.Type().Underlying().(*types.Interface)
+						if !ok || it.NumMethods() != 0 {
+							continue
+						}
+						if sc := c.Call.StaticCallee(); sc != nil && ai < len(sc.Params) && messageOnly(sc.Params[ai], 0) {
+							continue // a parameter that only feeds error messages
+						}
+						n++
+						key := fmt.Sprintf("%s: item handed on #%d", fnName(fn), ord.next(fnName(fn)))
+						av := e.evalAt(a, ctx, b)
+						if av.kind != "types" || av.Top {
+							out.viol(key, p.pos(c.Pos()), fnName(fn), "the dynamic type of a value handed on as an item is not bounded")
+							continue
+						}
+						var bad []string
+						for _, t := range av.Types {
+							if !inUniverse(t) {
+								bad = append(bad, typeStr(t))
+							}
+						}
+						if len(bad) == 0 {
+							out.ok(key, p.pos(c.Pos()), fnName(fn), "within the item universe")
+						} else {
+							sort.Strings(bad)
+							out.viol(key, p.pos(c.Pos()), fnName(fn), "a value of type "+strings.Join(bad, ", ")+" is handed on as an item: no downstream type switch has an arm for it")
+						}
+					}
+				}
+			}
+		}
+		out.Counts["items_handed_on"] = n
+		out.Floors["items_handed_on"] = 30
+		return out
+	},
+}
+
+func init() {
+	register(ruleSilentDefault, ruleItemTypes)
+	addProp(&PropSpec{
+		ID:          "C01",
+		Rules:       []string{"R-EXH", "R-SILENTDEFAULT", "R-ITEMTYPES", "R-TOWER"},
+		Explanation: "Conformance of Query is a statement about values; the part of it that is a shape of the code is that parser and executor speak the same vocabulary: every node shape and enum constant that a grammar action can construct (computed by abstract interpretation of the goyacc actions) has an executor arm that neither falls into the implementation-bug error nor into a silent 'not found'; every produced item is of a documented item type; the numeric representations are handled together. A feature added to the grammar without an executor arm, or a case list that loses a member, breaks conformance for every path using it and passes a suite that has no row for it.",
+		Decided: []string{"R-EXH: no feasible ErrInvalid for parser-produced paths (today: 5 known findings, D3)", "R-SILENTDEFAULT: no operator switch answers a buildable node with a silent 'not found'",
+			"R-ITEMTYPES: produced items stay inside the 13-type universe", "R-TOWER: numeric representations are siblings"},
+		NotDecided:  []string{"which items each step yields, their order and unwrapping depth: the substance of C01 quantifies over documents and is not a static fact; no claim is made about it", "D9 (lax `-\"a\"`: Query errs, Exists true) and similar value-level disagreements"},
+		Assumptions: []string{"item values of the input document have documented dynamic types", "ast.LinkNodes chains its arguments through next"},
+		Trusted:     append(append([]string{}, baseTrusted...), "goyacc rule numbering"),
+	})
+}
+
+// messageOnly: every use of the parameter is as an operand of a formatted
+// message (stored into a variadic argument array) or is handed to another
+// message-only parameter.
+func messageOnly(q *ssa.Parameter, depth int) bool {
+	if depth > 3 || len(*q.Referrers()) == 0 {
+		return false
+	}
+	for _, r := range *q.Referrers() {
+		switch x := r.(type) {
+		case *ssa.Store:
+			ia, ok := x.Addr.(*ssa.IndexAddr)
+			if !ok {
+				return false
+			}
+			if al, ok := ia.X.(*ssa.Alloc); !ok || al.Comment != "varargs" {
+				return false
+			}
+		case *ssa.Call:
+			sc := x.Call.StaticCallee()
+			if sc == nil || sc.Blocks == nil {
+				return false
+			}
+			okAll := false
+			for i, a := range x.Call.Args {
+				if a == ssa.Value(q) && i < len(sc.Params) {
+					if !messageOnly(sc.Params[i], depth+1) {
+						return false
+					}
+					okAll = true
+				}
+			}
+			if !okAll {
+				return false
+			}
+		case *ssa.DebugRef:
+		default:
+			return false
+		}
+	}
+	return true
 }
